@@ -10,48 +10,126 @@ Section Hist.
 Variable A : Type.
 Variable H : A -> A -> A.
 Variable eqA : A -> A -> bool.
+Variable okA : A -> bool.
 Notation traverse := (traverse A H eqA).
+Notation traverse_h := (traverse_h A H eqA okA).
+Notation okl := (Forall (fun x => okA x = true)).
 
-(* a fresh object (FBad clear): extract_hist is extract *)
-Theorem extract_hist_fresh n hashes bits :
-  fst (extract_hist A H eqA false n hashes bits) = extract A H eqA n hashes bits.
+(* on entries of the right length the walk of this file is the walk of Model/Merkle.v, and its
+   failures are the two that set FBad *)
+Lemma traverse_h_refines n : forall h pos (s : st A), okl (s_hashes s) ->
+  match traverse n h pos s with
+  | Some (x, s') => traverse_h n h pos s = TOk A x s' /\ okl (s_hashes s')
+  | None => traverse_h n h pos s = TErr A true
+  end.
 Proof.
-  unfold extract_hist, extract.
+  assert (Leaf : forall (s : st A) bits' (mh : bool), okl (s_hashes s) ->
+    match (match s_hashes s with
+           | [] => None
+           | x :: hs' => Some (x, mk_st bits' hs' (if mh then s_match s ++ [x] else s_match s) (s_bad s))
+           end) with
+    | Some (x, s') =>
+        match s_hashes s with
+        | [] => TErr A true
+        | x0 :: hs' => if okA x0 then TOk A x0 (mk_st bits' hs' (if mh then s_match s ++ [x0] else s_match s) (s_bad s))
+                       else TErr A (s_bad s)
+        end = TOk A x s' /\ okl (s_hashes s')
+    | None =>
+        match s_hashes s with
+        | [] => TErr A true
+        | x0 :: hs' => if okA x0 then TOk A x0 (mk_st bits' hs' (if mh then s_match s ++ [x0] else s_match s) (s_bad s))
+                       else TErr A (s_bad s)
+        end = TErr A true
+    end).
+  { intros s bits' mh Hok. destruct (s_hashes s) as [|y hs']; [reflexivity|].
+    inversion Hok as [|? ? Hy Hr]; subst. rewrite Hy. split; [reflexivity|exact Hr]. }
+  induction h as [|h IH]; intros pos s Hok; cbn [Merkle.traverse MerkleHist.traverse_h].
+  - destruct (s_bits s) as [|b bits']; [reflexivity|]. apply (Leaf s bits' b). exact Hok.
+  - destruct (s_bits s) as [|b bits']; [reflexivity|]. destruct b; cbn [negb]; [|apply (Leaf s bits' false); exact Hok].
+    pose proof (IH (pos * 2) (mk_st bits' (s_hashes s) (s_match s) (s_bad s)) Hok) as L.
+    destruct (traverse n h (pos * 2) (mk_st bits' (s_hashes s) (s_match s) (s_bad s))) as [[l s1]|].
+    2:{ rewrite L. reflexivity. }
+    destruct L as [L Ok1]. rewrite L.
+    destruct (pos * 2 + 1 <? width n (N.of_nat h)); [|split; [reflexivity|exact Ok1]].
+    pose proof (IH (pos * 2 + 1) s1 Ok1) as R.
+    destruct (traverse n h (pos * 2 + 1) s1) as [[r s2]|]; [|rewrite R; reflexivity].
+    destruct R as [R Ok2]. rewrite R. split; [reflexivity|exact Ok2].
+Qed.
+
+(* a fresh object (FBad clear, entries of the right length): extract_hist is extract *)
+Theorem extract_hist_fresh n hashes bits : okl hashes ->
+  fst (extract_hist A H eqA okA false n hashes bits) = extract A H eqA n hashes bits.
+Proof.
+  intro Hok. unfold extract_hist, extract.
   destruct (n =? 0); [reflexivity|]. destruct (max_txs <? n); [reflexivity|].
   destruct (n <? lenL hashes); [reflexivity|]. destruct (lenL bits <? lenL hashes); [reflexivity|].
   destruct (height_loop 34 n 0) as [h|]; [|reflexivity].
-  destruct (traverse n (N.to_nat h) 0 (mk_st bits hashes [] false)) as [[root s]|]; [|reflexivity].
+  pose proof (traverse_h_refines n (N.to_nat h) 0 (mk_st bits hashes [] false) Hok) as R.
+  destruct (traverse n (N.to_nat h) 0 (mk_st bits hashes [] false)) as [[root s]|]; [|rewrite R; reflexivity].
+  destruct R as [R _]. rewrite R.
   destruct (s_bad s); [reflexivity|].
   destruct (negb (_ =? _)); [reflexivity|]. destruct (negb (_ =? _)%nat); reflexivity.
 Qed.
 
-(* the walk never clears FBad *)
-Lemma traverse_bad_mono n : forall h pos (s s' : st A) x,
-  traverse n h pos s = Some (x, s') -> s_bad s = true -> s_bad s' = true.
+(* the walk never clears FBad, however it ends *)
+Lemma traverse_h_bad_mono n : forall h pos (s : st A), s_bad s = true ->
+  match traverse_h n h pos s with TOk _ _ s' => s_bad s' = true | TErr _ e => e = true end.
 Proof.
-  induction h as [|h IH]; intros pos s s' x Tr Hb; cbn [Merkle.traverse] in Tr.
-  - destruct (s_bits s) as [|b bits']; [discriminate|]. destruct (s_hashes s) as [|y hs']; [discriminate|].
-    injection Tr as _ <-. exact Hb.
-  - destruct (s_bits s) as [|b bits']; [discriminate|]. destruct b; cbn [negb] in Tr.
-    2:{ destruct (s_hashes s) as [|y hs']; [discriminate|]. injection Tr as _ <-. exact Hb. }
-    destruct (traverse n h (pos * 2) (mk_st bits' (s_hashes s) (s_match s) (s_bad s))) as [[l s1]|] eqn:L; [|discriminate].
-    apply IH in L; [|exact Hb].
-    destruct (pos * 2 + 1 <? width n (N.of_nat h)).
-    + destruct (traverse n h (pos * 2 + 1) s1) as [[r s2]|] eqn:R; [|discriminate].
-      apply IH in R; [|exact L]. injection Tr as _ <-. cbn [s_bad]. rewrite R. reflexivity.
-    + injection Tr as _ <-. exact L.
+  induction h as [|h IH]; intros pos s Hb; cbn [MerkleHist.traverse_h].
+  - destruct (s_bits s) as [|b bits']; [reflexivity|]. destruct (s_hashes s) as [|y hs']; [reflexivity|].
+    destruct (okA y); exact Hb.
+  - destruct (s_bits s) as [|b bits']; [reflexivity|]. destruct b; cbn [negb].
+    2:{ destruct (s_hashes s) as [|y hs']; [reflexivity|]. destruct (okA y); exact Hb. }
+    pose proof (IH (pos * 2) (mk_st bits' (s_hashes s) (s_match s) (s_bad s)) Hb) as L.
+    destruct (traverse_h n h (pos * 2) (mk_st bits' (s_hashes s) (s_match s) (s_bad s))) as [l s1|e]; [|exact L].
+    destruct (pos * 2 + 1 <? width n (N.of_nat h)); [|exact L].
+    pose proof (IH (pos * 2 + 1) s1 L) as R.
+    destruct (traverse_h n h (pos * 2 + 1) s1) as [r s2|e]; [|exact R]. cbn [s_bad]. rewrite R. reflexivity.
 Qed.
 
 (* an object whose FBad is set refuses everything, and stays that way *)
 Theorem extract_hist_sticky n hashes bits :
-  extract_hist A H eqA true n hashes bits = (None, true).
+  extract_hist A H eqA okA true n hashes bits = (None, true).
 Proof.
   unfold extract_hist.
   destruct (n =? 0); [reflexivity|]. destruct (max_txs <? n); [reflexivity|].
   destruct (n <? lenL hashes); [reflexivity|]. destruct (lenL bits <? lenL hashes); [reflexivity|].
   destruct (height_loop 34 n 0) as [h|]; [|reflexivity].
-  destruct (traverse n (N.to_nat h) 0 (mk_st bits hashes [] true)) as [[root s]|] eqn:Tr; [|reflexivity].
-  rewrite (traverse_bad_mono n _ _ _ _ _ Tr eq_refl). reflexivity.
+  pose proof (traverse_h_bad_mono n (N.to_nat h) 0 (mk_st bits hashes [] true) eq_refl) as M.
+  destruct (traverse_h n (N.to_nat h) 0 (mk_st bits hashes [] true)) as [root s|e]; rewrite M; reflexivity.
+Qed.
+
+(* a successful walk has passed every entry it consumed through NewHash *)
+Lemma traverse_h_consumed_ok n : forall h pos (s s' : st A) x,
+  traverse_h n h pos s = TOk A x s' -> exists c, s_hashes s = c ++ s_hashes s' /\ okl c.
+Proof.
+  induction h as [|h IH]; intros pos s s' x Tr; cbn [MerkleHist.traverse_h] in Tr.
+  - destruct (s_bits s) as [|b bits']; [discriminate|]. destruct (s_hashes s) as [|y hs']; [discriminate|].
+    destruct (okA y) eqn:Hy; [|discriminate]. injection Tr as _ <-. exists [y]. split; [reflexivity|]. constructor; [exact Hy|constructor].
+  - destruct (s_bits s) as [|b bits']; [discriminate|]. destruct b; cbn [negb] in Tr.
+    2:{ destruct (s_hashes s) as [|y hs']; [discriminate|]. destruct (okA y) eqn:Hy; [|discriminate].
+        injection Tr as _ <-. exists [y]. split; [reflexivity|]. constructor; [exact Hy|constructor]. }
+    destruct (traverse_h n h (pos * 2) (mk_st bits' (s_hashes s) (s_match s) (s_bad s))) as [l s1|e] eqn:L; [|discriminate].
+    apply IH in L as [c1 [C1 O1]]. cbn [s_hashes] in C1.
+    destruct (pos * 2 + 1 <? width n (N.of_nat h)).
+    + destruct (traverse_h n h (pos * 2 + 1) s1) as [r s2|e] eqn:R; [|discriminate].
+      apply IH in R as [c2 [C2 O2]]. injection Tr as _ <-. cbn [s_hashes].
+      exists (c1 ++ c2). rewrite C1, C2, app_assoc. split; [reflexivity|]. apply Forall_app. split; assumption.
+    + injection Tr as _ <-. exists c1. split; assumption.
+Qed.
+
+(* altered hash LENGTH: an entry that is not 32 bytes long is never accepted, whatever FBad, count or flags *)
+Theorem extract_hist_accepts_only_valid_entries bad n hashes bits r bad' :
+  extract_hist A H eqA okA bad n hashes bits = (Some r, bad') -> okl hashes.
+Proof.
+  unfold extract_hist.
+  destruct (n =? 0); [discriminate|]. destruct (max_txs <? n); [discriminate|].
+  destruct (n <? lenL hashes); [discriminate|]. destruct (lenL bits <? lenL hashes); [discriminate|].
+  destruct (height_loop 34 n 0) as [h|]; [|discriminate].
+  destruct (traverse_h n (N.to_nat h) 0 (mk_st bits hashes [] bad)) as [root s|e] eqn:Tr; [|discriminate].
+  destruct (s_bad s); [discriminate|]. destruct (negb (_ =? _)); [discriminate|].
+  destruct (s_hashes s) as [|y ys] eqn:E; [|discriminate]. intros _.
+  apply traverse_h_consumed_ok in Tr as [c [C O]]. cbn [s_hashes] in C. rewrite E, app_nil_r in C. subst c. exact O.
 Qed.
 
 End Hist.
@@ -59,12 +137,12 @@ End Hist.
 (* histories: with FBad clear, a call returns what a freshly decoded proof with the object's present
    count / hashes / flag bits returns -- whatever was extracted or edited before *)
 Theorem history_verdict_is_fresh_verdict o o' res :
-  h_bad o = false -> hstep o HExtract = Some (o', Some res) ->
+  h_bad o = false -> Forall (fun h => hash32 h = true) (h_hashes o) -> hstep o HExtract = Some (o', Some res) ->
   res = extract bytes node_hash bytes_eqb (h_count o) (h_hashes o) (h_bits o).
 Proof.
-  intros Hb St. unfold hstep in St. rewrite Hb in St.
-  pose proof (extract_hist_fresh bytes node_hash bytes_eqb (h_count o) (h_hashes o) (h_bits o)) as F.
-  destruct (extract_hist bytes node_hash bytes_eqb false (h_count o) (h_hashes o) (h_bits o)) as [r b'].
+  intros Hb Hok St. unfold hstep in St. rewrite Hb in St.
+  pose proof (extract_hist_fresh bytes node_hash bytes_eqb hash32 (h_count o) (h_hashes o) (h_bits o) Hok) as F.
+  destruct (extract_hist bytes node_hash bytes_eqb hash32 false (h_count o) (h_hashes o) (h_bits o)) as [r b'].
   cbn [fst] in F. injection St as _ <-. exact F.
 Qed.
 
@@ -79,11 +157,22 @@ Proof.
     destruct (h_count o <? lenL (h_hashes o)); [intro E; discriminate E|].
     destruct (lenL (h_bits o) <? lenL (h_hashes o)); [intro E; discriminate E|].
     destruct (height_loop 34 (h_count o) 0) as [h|]; [|intro E; discriminate E].
-    destruct (traverse bytes node_hash bytes_eqb (h_count o) (N.to_nat h) 0 (mk_st (h_bits o) (h_hashes o) [] false)) as [[root s]|];
+    destruct (traverse_h bytes node_hash bytes_eqb hash32 (h_count o) (N.to_nat h) 0 (mk_st (h_bits o) (h_hashes o) [] false)) as [root s|e];
       [|intro E; discriminate E].
     destruct (s_bad s); [intro E; discriminate E|].
     destruct (negb (_ =? _)); [intro E; discriminate E|]. destruct (negb (_ =? _)%nat); [intro E; discriminate E|].
     intro E. injection E as <- _. reflexivity.
+Qed.
+
+(* a call on an object with a TxHashes entry that is not 32 bytes long (only reachable through the
+   exported field) is refused: chainhash.NewHash fails on it *)
+Theorem history_bad_length_refused o o' res :
+  ~ Forall (fun h => hash32 h = true) (h_hashes o) -> hstep o HExtract = Some (o', Some res) -> res = None.
+Proof.
+  intros Hn St. unfold hstep in St.
+  destruct (extract_hist bytes node_hash bytes_eqb hash32 (h_bad o) (h_count o) (h_hashes o) (h_bits o)) as [r b'] eqn:E.
+  injection St as _ <-. destruct r as [r|]; [|reflexivity].
+  exfalso. apply Hn. exact (extract_hist_accepts_only_valid_entries _ _ _ _ _ _ _ _ _ _ E).
 Qed.
 
 (* FBad is part of the value (an exported field) and is never cleared by ExtractMatches: an object that
@@ -92,7 +181,7 @@ Qed.
 Theorem history_sticky_fbad_example :
   exists n hashes bits r,
     extract term Hn term_eqb n hashes bits = Some r /\
-    fst (extract_hist term Hn term_eqb true n hashes bits) = None.
+    fst (extract_hist term Hn term_eqb (fun _ => true) true n hashes bits) = None.
 Proof.
   exists 4, [T 1; T 2; Hn (T 3) (T 4)], [true; true; true; false; false; false; false; false],
     (Hn (Hn (T 1) (T 2)) (Hn (T 3) (T 4)), [T 1]).
